@@ -9,7 +9,7 @@ import random
 
 from .. import common, pipeline
 from ..gen import ffgen, workload
-from ..mon import match
+from ..mon import pkastub, match
 from ..ref import ffmap, states
 from ..ref import topology as topo
 from ..run import Res
@@ -81,6 +81,9 @@ def cases(tier, seed):
                 o.append("--neutralc")
         if rng.random() < 0.15:
             o.append("--ffout=" + rng.choice(common.FFS))
+        if "--assign-only" not in o and rng.random() < 0.15:
+            # pKa route (stubbed pKa source, random table): titrated states ASH, GLH, HIP, CYM, TYM, LYN, AR0
+            o += pkastub.titration_opts(rng)
         return o
 
     nrun = 180 if tier == "quick" else 30000
@@ -226,7 +229,7 @@ def run_namestable(spec, res):
         common.wipe(d)
 
 
-def check_run(res, spec, m, r, model, opts):
+def check_run(res, spec, m, r, model, opts, titr_by_ord=None):
     """End-to-end + in-vivo comparison for one successful run."""
     ffid = {e[0] for e in EVENTS}
     # in-vivo: every get_params event of the *parameter* force field (first Forcefield object used) vs the model
@@ -251,6 +254,7 @@ def check_run(res, spec, m, r, model, opts):
                     ff=spec["ff"], opts=spec["opts"])
         return
     line_of = {id(a): ln for a, ln in zip(written, pq)}
+    tord = {id(t): k for k, t in enumerate(m["truth"])}
     for residue, tr in pairs:
         if tr is None:
             res.count("residues_unmatched")
@@ -259,11 +263,14 @@ def check_run(res, spec, m, r, model, opts):
             continue
         names = {getattr(a, "_vf_name", a.name) for a in residue.atoms}
         ss = id(residue) in bonded
-        ffn = states.ff_name(tr, names, opts, ss)
+        titr = (titr_by_ord or {}).get(tord[id(tr)], ())
+        ffn = states.ff_name(tr, names, opts, ss, titr)
         if ffn is None:
             continue
         pos = "I" if tr.get("cyclic") else tr["pos"]
         res.cell(spec["ff"], ffn, pos)
+        if titr:
+            res.count("titrated_residues_checked")
         if pos != "I" or tr["resn"] in topo.VARIANTS or tr["kind"] == "na" or spec["ff"] == "USER" or ss:
             res.nt(spec["ff"] if spec["ff"] != "USER" else "USER-" + spec.get("base", ""), ffn, pos)
         for a in residue.atoms:
@@ -323,8 +330,11 @@ def run_run(spec, res):
         from ..gen import pdbfmt
         m = dict(m, text=text, items=[dict(a, rec=a["rec"]) for a in pdbfmt.read_first_model(text)])
     del EVENTS[:]
-    r = pipeline.run(m["text"], opts_list, extra_files=extra, workname="c01")
+    with pkastub.for_opts(opts_list, m["truth"], spec["seed"]) as titr:
+        r = pipeline.run(m["text"], opts_list, extra_files=extra, workname="c01")
     res.count("runs")
+    if titr is not None:
+        res.count("pka_route_runs")
     if not r.ok:
         res.count("runs_failed")
         msg = " | ".join(mm for lv, _n, mm in r.log if lv >= 40)[:160]
@@ -336,7 +346,7 @@ def run_run(spec, res):
     opts = states.Opts(opts_list)
     if spec["kind"] == "userrun":
         opts.ff = "USER"
-    check_run(res, spec, m, r, model, opts)
+    check_run(res, spec, m, r, model, opts, pkastub.observed_titration(r, m) if titr is not None else None)
     res.sample = {"kind": spec["kind"], "ff": spec["ff"], "opts": opts_list, "w": spec["w"],
                   "residues": [t["resn"] for t in m["truth"]][:12], "lookup_events": len(EVENTS)}
 
